@@ -164,6 +164,9 @@ def one_program(ctx, language, prog, rng, random_subsets):
             continue
         if exp and removed:
             ctx.distinct([language, marked])
+            if len(ctx.samples) < 3:
+                ctx.sample({"language": language, "markers_appended_to_lines": additions, "functions_before": len(base),
+                            "functions_after": len(got), "removed": sorted(truth[i][0] for i in removed)})
         if got != exp:
             es = {repr(x) for x in exp}
             gs = {repr(x) for x in got}
@@ -213,7 +216,6 @@ def run(shard, ctx):
             continue
         ctx.count("programs")
         one_program(ctx, lang, prog, rng, shard["random_subsets"])
-    ctx.sample({"language": lang, "marker_examples": [spellings(lang, rng) for _ in range(4)], "decoy_examples": [decoy_comment(lang, rng)]})
 
 
 def replay(case, ctx):
